@@ -3,9 +3,11 @@
 as /verif/seeded/<id>-<X>/ with meta.json."""
 import json, os, shutil, subprocess, sys
 VERIF = os.path.dirname(os.path.dirname(os.path.abspath(__file__)))
+SRC = os.environ.get("SEED_SRC", "/tmp/seed_out")
+NAMES = dict(zip("AB", os.environ.get("SEED_NAMES", "AB")))
 for pid in sys.argv[1:]:
     for x in ("A", "B"):
-        d = "/tmp/seed_out/%s/%s" % (pid, x)
+        d = "%s/%s/%s" % (SRC, pid, x)
         if not os.path.exists(d + "/patch.diff"):
             print(pid, x, "missing"); continue
         r = subprocess.run([VERIF + "/tools/seedtest.sh", pid, d], capture_output=True, text=True)
@@ -26,7 +28,7 @@ for pid in sys.argv[1:]:
         print(pid, x, "confirmed" if confirmed else "NOT-CONFIRMED", "caught" if meta["caught"] else "MISSED rc=%s" % meta.get("check_rc"),
               meta.get("violation", "")[:110])
         if confirmed:
-            out = "%s/seeded/%s-%s" % (VERIF, pid, x)
+            out = "%s/seeded/%s-%s" % (VERIF, pid, NAMES[x])
             os.makedirs(out, exist_ok=True)
             for f in ("patch.diff", "demo.py", "notes.md", "check_output.txt"):
                 if os.path.exists(d + "/" + f):
